@@ -16,6 +16,7 @@ import (
 	"errors"
 	"fmt"
 	"math/rand"
+	"runtime"
 	"strings"
 	"sync"
 	"time"
@@ -62,6 +63,7 @@ type c10Scenario struct {
 	Notes      []string       `json:"notes,omitempty"`
 	DupPanic   string         `json:"dup_panic,omitempty"`
 	DurMs      int64          `json:"dur_ms"`
+	Leftover   int            `json:"leftover_goroutines"`
 }
 
 // ---- scripted subscriber: one per handler
@@ -190,7 +192,7 @@ const (
 func c10Run(rt *hookrt.Runtime, sc *c10Scenario, seed int64) {
 	rt.Reset()
 	rt.Filter(func(point string, keys []string) bool {
-		return strings.HasPrefix(point, "router.life.") || strings.HasPrefix(point, "api.")
+		return strings.HasPrefix(point, "router.life.") || strings.HasPrefix(point, "api.") || strings.HasPrefix(point, "router.handler.handleclose.") || point == "router.handler.received"
 	})
 	if !sc.Forced || seed%2 == 0 {
 		rt.Perturb("*", 0.2)
@@ -201,6 +203,9 @@ func c10Run(rt *hookrt.Runtime, sc *c10Scenario, seed int64) {
 		rules = append(rules, rt.AddRule(&hookrt.ParkRule{Point: p.Point, Keys: p.Keys, Nth: p.Nth, Until: p.Until, UntilKeys: p.UKeys,
 			Timeout: time.Duration(p.Timeout) * time.Millisecond}))
 	}
+	// goroutines of an earlier scenario's router must not stamp nameless points into this log:
+	// every scenario ends its subscriptions and waits until the goroutine count is back at its baseline
+	baseline := runtime.NumGoroutine()
 	router, err := message.NewRouter(message.RouterConfig{CloseTimeout: 1 * time.Second}, watermill.NopLogger{})
 	if err != nil {
 		sc.Notes = append(sc.Notes, "NewRouter: "+err.Error())
@@ -218,6 +223,19 @@ func c10Run(rt *hookrt.Runtime, sc *c10Scenario, seed int64) {
 	mainStarted := false
 	var asyncWg sync.WaitGroup
 	hname := func(h int) string { return fmt.Sprintf("s%d-h%d", sc.ID, h) }
+	gate := make(chan struct{}) // slow messages stay inside their handler function until "release"
+	var gateOnce sync.Once
+	release := func() { gateOnce.Do(func() { close(gate) }) }
+	slowEntered := make(chan struct{}, 64)
+	slowWait := func(msg *message.Message) {
+		if msg.Metadata.Get("slow") != "" {
+			slowEntered <- struct{}{}
+			select {
+			case <-gate:
+			case <-time.After(30 * time.Second):
+			}
+		}
+	}
 	probeN := 0
 
 	withWatchdog := func(what string, d time.Duration, f func()) bool {
@@ -244,6 +262,7 @@ func c10Run(rt *hookrt.Runtime, sc *c10Scenario, seed int64) {
 			if op.Pub < 0 {
 				hd = router.AddNoPublisherHandler(name, "topic-"+name, s, func(msg *message.Message) error {
 					rt.Stamp("api.processed", fmt.Sprint(h), "true", "-1")
+					slowWait(msg)
 					return nil
 				})
 			} else {
@@ -253,6 +272,7 @@ func c10Run(rt *hookrt.Runtime, sc *c10Scenario, seed int64) {
 					pubs[op.Pub] = p
 				}
 				hd = router.AddHandler(name, "topic-"+name, s, "out", p, func(msg *message.Message) ([]*message.Message, error) {
+					slowWait(msg)
 					out := message.NewMessage(msg.UUID+"-out", nil)
 					out.Metadata.Set("h", fmt.Sprint(h))
 					return []*message.Message{out}, nil
@@ -290,6 +310,7 @@ func c10Run(rt *hookrt.Runtime, sc *c10Scenario, seed int64) {
 		case "run2":
 			tid := newTid()
 			withWatchdog("second Run", c10ObsWait, func() {
+				defer c10Recover(rt, "Run")
 				rt.Stamp("api.run.call", fmt.Sprint(tid))
 				err := router.Run(context.Background())
 				rt.Stamp("api.run.ret", fmt.Sprint(tid), fmt.Sprint(err == nil))
@@ -424,6 +445,26 @@ func c10Run(rt *hookrt.Runtime, sc *c10Scenario, seed int64) {
 			if !taken || !settled {
 				rt.Stamp("api.probe_stuck", fmt.Sprint(op.H), fmt.Sprint(taken))
 			}
+		case "slow_probe":
+			// a message whose handler call lasts until "release": the driver only hands it over
+			if op.H >= len(subs) {
+				continue
+			}
+			probeN++
+			msg := message.NewMessage(fmt.Sprintf("probe-%d-%d", sc.ID, probeN), nil)
+			msg.Metadata.Set("slow", "1")
+			if !subs[op.H].emit(msg, c10ProbeWait) {
+				rt.Stamp("api.probe_stuck", fmt.Sprint(op.H), "false")
+			} else {
+				// go on only when the message is inside its handler function (counted in runningHandlersWg)
+				select {
+				case <-slowEntered:
+				case <-time.After(c10ProbeWait):
+					note(fmt.Sprintf("slow message of %d never reached its handler", op.H))
+				}
+			}
+		case "release":
+			release()
 		case "subend":
 			if op.H >= len(subs) {
 				continue
@@ -445,9 +486,13 @@ func c10Run(rt *hookrt.Runtime, sc *c10Scenario, seed int64) {
 		}
 	}
 	rt.Stamp("api.scenario.end")
+	release()
 	// ---- clean up (no verdicts from here on)
 	rt.ReleaseAll()
 	cancel()
+	for _, s := range subs {
+		s.end("cleanup")
+	}
 	closed := make(chan struct{})
 	go func() { router.Close(); close(closed) }()
 	select {
@@ -469,7 +514,10 @@ func c10Run(rt *hookrt.Runtime, sc *c10Scenario, seed int64) {
 			}
 		}
 	}
-	time.Sleep(2 * time.Millisecond)
+	for deadline := time.Now().Add(2 * time.Second); runtime.NumGoroutine() > baseline && time.Now().Before(deadline); {
+		time.Sleep(500 * time.Microsecond)
+	}
+	sc.Leftover = runtime.NumGoroutine() - baseline
 	sc.Events = rt.Log()
 	for _, s := range subs {
 		s.mu.Lock()
@@ -550,6 +598,14 @@ func c10Forced() []*c10Scenario {
 		c10Park{Point: "router.life.hc.ctx", Nth: 1, Until: "api.mark.never", Timeout: 100})
 	// context cancelled on a router that has no handlers
 	add("cancel-empty-router", []c10Op{op("run"), op("wait_running"), op("cancel"), op("wait_run")})
+	// Stop X while Y is inside a slow handler call: X ends alone, a third handler Z keeps processing
+	add("stop-while-other-handler-is-slow", []c10Op{opAdd(0, true), opAdd(1, true), opAdd(-1, true), opAdd(-1, true), op("run"), op("wait_running"), opH("slow_probe", 1), opH("slow_probe", 3),
+		opH("stop", 0), opH("wait_stopped", 0), opH("probe", 2), opH("stop", 2), opH("wait_stopped", 2), op("release"), opH("probe", 1), opH("probe", 3),
+		opH("stop", 1), opH("stop", 3), opH("wait_stopped", 1), opH("wait_stopped", 3), op("wait_run"), op("poll_running")})
+	// second Run after Close / after the context was cancelled
+	add("second-run-after-close", []c10Op{opAdd(-1, true), op("run"), op("wait_running"), op("run2"), op("close"), op("wait_run"), op("run2"), op("poll_running"), op("run2")})
+	add("second-run-after-cancel", []c10Op{opAdd(0, true), op("run"), op("wait_running"), op("cancel"), op("wait_run"), op("run2"), op("run2")})
+	add("second-run-after-failed-run", []c10Op{{K: "add", Pub: -1, Hon: true, Fail: true}, op("run"), op("wait_run"), op("run2"), op("poll_running")})
 	// second Run
 	add("second-run", []c10Op{opAdd(-1, true), op("run"), op("wait_running"), op("run2"), opH("probe", 0), op("run2"), opH("stop", 0), opH("wait_stopped", 0), op("wait_run"), op("run2")})
 	// RunHandlers / Stop / Stopped before Run
@@ -561,7 +617,7 @@ func c10Forced() []*c10Scenario {
 		op("close"), op("wait_run")})
 	// subscription ended by the environment; subscriber ignoring its context + Close
 	add("subscription-ends", []c10Op{opAdd(0, false), opAdd(1, true), op("run"), op("wait_running"), opH("subend", 0), opH("wait_stopped", 0), opH("probe", 1), opH("subend", 1), opH("wait_stopped", 1), op("wait_run")})
-	add("close-with-ctx-ignoring-subscriber", []c10Op{opAdd(0, false), op("run"), op("wait_running"), opH("stop", 0), opH("probe", 0), {K: "close", Async: true}, op("wait_run"), opH("stopped_get", 0)})
+	add("close-with-ctx-ignoring-subscriber", []c10Op{opAdd(0, false), op("run"), op("wait_running"), opH("probe", 0), opH("stop", 0), {K: "close", Async: true}, op("wait_run"), opH("stopped_get", 0)})
 	// foreign context for RunHandlers
 	add("runhandlers-foreign-context", []c10Op{opAdd(0, true), op("run"), op("wait_running"), opAdd(1, true), opRH(1, true, false), opH("started", 1), op("cancel"), opH("wait_stopped", 0), opH("probe", 1),
 		opH("stop", 1), opH("wait_stopped", 1), op("wait_run")})
@@ -698,6 +754,9 @@ func c10Random(rng *rand.Rand, id int) *c10Scenario {
 			}
 		case 10:
 			ops = append(ops, op("run2"))
+			if h := pick(func(h *hinfo) bool { return h.covered && !h.stopped }); h >= 0 && rng.Intn(2) == 0 {
+				ops = append(ops, opH("slow_probe", h))
+			}
 		case 11:
 			if h := pick(func(h *hinfo) bool { return h.covered && h.stopped }); h >= 0 {
 				ops = append(ops, opH("wait_stopped", h))
@@ -705,6 +764,7 @@ func c10Random(rng *rand.Rand, id int) *c10Scenario {
 		}
 	}
 	// ending
+	ops = append(ops, op("release"))
 	switch e := rng.Intn(6); {
 	case e <= 2 && len(hs) > 0: // stop every handler: the router closes itself
 		for i, h := range hs {
@@ -741,7 +801,7 @@ func c10Random(rng *rand.Rand, id int) *c10Scenario {
 	}
 	_ = cancelled
 	ops = append(ops, op("wait_run"), op("poll_running"))
-	if rng.Intn(3) == 0 {
+	if rng.Intn(2) == 0 {
 		ops = append(ops, op("run2"))
 	}
 	sc.Ops = ops
